@@ -1,5 +1,6 @@
 import GB.C14.Proofs
 import GB.C14.ProofsEsc
+import GB.Generated.Facts
 import GB.C14.Atomic
 import GB.C14.ProofsDefault
 import GB.C06.Props
@@ -160,6 +161,59 @@ theorem C14_forms_agree (p : Bytes) (hp : Plain p) (hs : p.head? = some slash) :
     show setPath (targetPath (slash :: cs)) = _
     rw [ht]
     simp [setPath, hu, he]
+
+/-- **Only the exact method token `POST` is the gRPC-style HTTP form** (HTTP methods are case-sensitive): `RouteHTTP` routes a
+    request to a target **iff** the method bytes are exactly `POST` and the gRPC form routes the same name; every other token —
+    `post`, `Post`, `POSTS`, `GET`, … — gets Unimplemented with HTTP status 405, whatever the path names (known service, unknown
+    service, malformed name alike).  Seeded change C14-m12 (`strings.EqualFold`) breaks the "only if" direction. -/
+theorem C14_http_form_exact_post (pool : Name → Bool) (routes : SvcName → Option SvcRoute) (hm name : Bytes) :
+    ((∃ t v i rpc bm bp, routeHTTPsvcName pool routes hm name = .ok t v i rpc bm bp) ↔
+      (hm = [80, 79, 83, 84] ∧ ∃ t v i rpc, routeGRPC pool routes (some name) = .ok t v i rpc)) ∧
+    (hm ≠ [80, 79, 83, 84] → routeHTTPsvcName pool routes hm name = .status codeUnimplemented (some 405)) := by
+  have hP : POST = [80, 79, 83, 84] := rfl
+  refine ⟨⟨?_, ?_⟩, fun h => (C14_route_http pool routes hm name).1 (by rw [hP]; exact h)⟩
+  · rintro ⟨t, v, i, rpc, bm, bp, h⟩
+    by_cases c : hm = POST
+    · refine ⟨by rw [← hP]; exact c, ?_⟩
+      subst c
+      simp only [routeHTTPsvcName, ne_eq, not_true_eq_false, if_false] at h
+      simp only [routeGRPC]
+      cases hp : parseRPCName name with
+      | none => simp [hp] at h
+      | some p =>
+        obtain ⟨svc, m⟩ := p
+        simp only [hp] at h ⊢
+        cases hr : routes svc with
+        | none => simp [hr] at h
+        | some r =>
+          simp only [hr] at h ⊢
+          by_cases hpl : pool r.target = true
+          · exact ⟨r.target, r.ver, r.idx, canonicalRPCName svc m, by simp [hpl]⟩
+          · simp [hpl] at h
+    · rw [(C14_route_http pool routes hm name).1 c] at h; cases h
+  · rintro ⟨c, t, v, i, rpc, h⟩
+    exact ⟨t, v, i, rpc, POST, rpc, (C14_route_http pool routes hm name).2.2 (by rw [hP]; exact c) t v i rpc h⟩
+
+/-- `post` and `Post` on the path `/p.S/M` of a known, pooled service: refused (405), while `POST` is routed -/
+theorem C14_http_form_lowercase_post_refused :
+    routeHTTPsvcName (fun _ => true) (fun s => if s = [112, 46, 83] then some ⟨[97], 1, 0⟩ else none)
+      [112, 111, 115, 116] [47, 112, 46, 83, 47, 77] = .status codeUnimplemented (some 405) ∧
+    routeHTTPsvcName (fun _ => true) (fun s => if s = [112, 46, 83] then some ⟨[97], 1, 0⟩ else none)
+      [80, 111, 115, 116] [47, 112, 46, 83, 47, 77] = .status codeUnimplemented (some 405) ∧
+    routeHTTPsvcName (fun _ => true) (fun s => if s = [112, 46, 83] then some ⟨[97], 1, 0⟩ else none)
+      [80, 79, 83, 84] [47, 112, 46, 83, 47, 77] =
+        .ok [97] 1 0 [47, 112, 46, 83, 47, 77] [80, 79, 83, 84] [47, 112, 46, 83, 47, 77] := by
+  decide
+
+/-- regenerated from the AST of `ServiceRouter.RouteHTTP` on every check (extract/c14.go): the non-POST refusal is the
+    case-sensitive comparison against `http.MethodPost`, it is the only expression over `r.Method`, and the function calls
+    no case-folding helper. -/
+theorem C14_facts_method_guard :
+    GB.Generated.c14RouteHTTPMethodGuard = "r.Method != http.MethodPost" ∧
+    GB.Generated.c14RouteHTTPMethodComparisons = ["r.Method != http.MethodPost"] ∧
+    "strings.EqualFold" ∉ GB.Generated.c14RouteHTTPCalls ∧ "strings.ToUpper" ∉ GB.Generated.c14RouteHTTPCalls ∧
+    "strings.ToLower" ∉ GB.Generated.c14RouteHTTPCalls := by
+  decide
 
 /-! ### escaped paths (fix D39)
 
